@@ -338,6 +338,7 @@ class HCtx(AsyncContext):
         f = self.fail
         if f is not None and f[0] == what and self.calls >= f[1]:
             self.fail = ("done", 0)
+            self.rt.emit("ctx_fault", self.cid, what)
             raise UserErr(("ctx", what, self.cid[0]))
 
     def resume(self):
